@@ -73,6 +73,8 @@ class C03(Prop):
         self.remotes = {k: tcpwork.make_remote(v) for k, v in self.irsets.items()}
         clock.set_zone("UTC")
 
+    _transitions = {}
+
     async def teardown(self, ctx):
         await self.rig.close()
 
@@ -141,8 +143,17 @@ class C03(Prop):
 
         recs = [_rp.schedule_record(k2, r.choice([0, 2, 0x54, 0xFE]), 1_700_000_000 + k2 * 3600, 1_700_003_600 + k2 * 3600) for k2 in range(r.randrange(0, 9))]
         self.dev.responder = td.auto_responder(thermostat=reported, family=lambda conn: family.get(conn.id, "thermostat"), rnd=r, schedule_records=recs)
-        clock.set_zone(r.choice(env.ZONES))   # nothing on the wire depends on the host zone
+        zone = r.choice(env.ZONES)
+        clock.set_zone(zone)   # nothing on the wire depends on the host zone
         t0 = float(r.randrange(1_000_000, 4_000_000_000)) + r.choice([0.0, 0.2, 0.8])
+        if r.random() < 0.15:
+            # the hours around a change of the host zone's UTC offset (incl. the local hour that happens twice): the current
+            # time on the wire is the epoch second, not something rebuilt from local wall-clock fields
+            if zone not in self._transitions:
+                self._transitions[zone] = clock.transitions(zone)
+            if self._transitions[zone]:
+                t0 = float(r.choice(self._transitions[zone]) + r.randrange(-3600, 3600)) + r.choice([0.0, 0.5])
+                acc.count("histories_around_a_utc_offset_change")
         world = {"zone": "UTC", "now": t0, "reported": reported}
         choice_log = []
         with clock.virtual_time(t0) as traveller:
